@@ -6,7 +6,7 @@ HARNESS = "c06"
 DRIVER = "c06"
 PROPS_MODULE = "OxyModel.Props.C15"
 AUDIT = "OxyModel/Audit/C15.lean"
-THEOREMS = ["C15.C15_request_over_limit_413_no_invoke", "C15.C15_response_over_limit_no_bytes", "C15.C15_no_temp_left",
+THEOREMS = ["C15.C15_request_over_limit_413_no_invoke", "C15.C15_within_limit_reaches_handler", "C15.C15_response_over_limit_no_bytes", "C15.C15_no_temp_left",
             "C15.C15_spills_beyond_threshold"]
 RACE = False
 JOBS = 8
